@@ -2,7 +2,7 @@ CONSTANTS
   AnyOrder = FALSE
   MinItems = 0
   NC = 1
-  L = 7
+  L = 6
   MaxItems = 4
   MaxPerChrom = 4
   IPS = {1, 2}
